@@ -1,4 +1,6 @@
 CONSTANTS N = 4
+  Dups = FALSE
+  Wrong = "none"
 INIT Init
 NEXT Next
 INVARIANTS PickInList OrderInsensitive AppendStable MonotoneBuckets
